@@ -290,6 +290,14 @@ def case_line(case):
         name = op[0]
         if name == 'small':
             toks.append('small:%d' % int(op[1]))
+        elif name == 'shadow':
+            toks.append('shadow:%d' % int(op[1]))
+        elif name == 'flags':
+            toks.append('flags')
+        elif name == 'nop':
+            toks.append('nop:' + op[1])
+        elif name in ('plot', 'plotx'):
+            toks.append('%s:%s' % (name, tok_fl(logical_values(op[1], fmt))))
         elif name == 'area':
             toks.append('area:' + op[1].replace(' ', '~'))
         elif name in ('n', 'fc', 'hbs', 'hms'):
@@ -321,6 +329,128 @@ def make_walls(nws, fmt):
     return a.astype(wdt) if fmt.get('layout', 'C') == 'C' else a
 
 
+# ---- public calls that are NOT setters (R7): plot helpers, representations, copies, getters, helper methods
+class _Ax:
+    """stand-in for a matplotlib axes (plot_deterministic_path_loss_in_dB only calls ax.plot)"""
+
+    def plot(self, *a, **k):
+        return None
+
+
+class _AxRaises:
+    """an axes object whose plot command fails"""
+
+    def plot(self, *a, **k):
+        raise ValueError('axes refuse to plot')
+
+
+_AGG = {}
+
+
+def agg_axes():
+    """a real matplotlib axes on the Agg canvas (None when matplotlib is not importable)"""
+    if 'ax' not in _AGG:
+        try:
+            import matplotlib
+            matplotlib.use('Agg')
+            import matplotlib.pyplot as plt
+            _AGG['plt'] = plt
+            _AGG['ax'] = plt.figure().add_subplot(111)
+        except Exception:
+            _AGG['ax'] = None
+    ax = _AGG['ax']
+    if ax is not None:
+        ax.cla()
+    return ax
+
+
+def flags_of(o):
+    return 's%dh%d' % (int(bool(o.handle_small_distances_bool)), int(bool(o.use_shadow_bool)))
+
+
+def do_plot(o, d, variant, raises=False):
+    """one of the entry points / argument forms of the plot helper"""
+    with warnings.catch_warnings():
+        warnings.simplefilter('ignore')
+        if raises:
+            return o.plot_deterministic_path_loss_in_dB(d, ax=_AxRaises())
+        v = variant % 5
+        if v == 0:
+            return o.plot_deterministic_path_loss_in_dB(d, ax=_Ax())
+        if v == 1:
+            return o.plot_deterministic_path_loss_in_dB(d, _Ax(), {'label': 'curve', 'linewidth': 2})
+        if v == 2:
+            return o._plot_deterministic_path_loss_in_dB_impl(d, _Ax(), None, 'Km')
+        if v == 3:
+            ax = agg_axes()
+            return o.plot_deterministic_path_loss_in_dB(d, ax=ax if ax is not None else _Ax())
+        if agg_axes() is not None and np.size(d):
+            r = o.plot_deterministic_path_loss_in_dB(d)        # stand-alone figure (plt.axes / plt.show on Agg)
+            _AGG['plt'].close('all')
+            _AGG.pop('ax', None)
+            return r
+        return o.plot_deterministic_path_loss_in_dB(d, ax=_Ax())
+
+
+NOPS = ['repr', 'str', 'latex', 'type', 'getters', 'helpers', 'det', 'copy', 'deepcopy', 'pickle', 'vars']
+
+
+def do_nop(o, name, kind):
+    """a public call that must not change the object; copies REPLACE the object (the history goes on with the copy)"""
+    import copy
+    import pickle
+    with warnings.catch_warnings():
+        warnings.simplefilter('ignore')
+        if name == 'repr':
+            repr(o)
+        elif name == 'str':
+            str(o)
+            format(o)
+        elif name == 'latex':
+            if hasattr(o, '_repr_latex_'):
+                o._repr_latex_()
+            if hasattr(o, '_get_latex_repr'):
+                o._get_latex_repr()
+            if hasattr(o, 'get_latex_repr'):
+                o.get_latex_repr()
+                o.get_latex_repr(0)
+                o.get_latex_repr(3)
+        elif name == 'type':
+            o.type
+            type(o)._TYPE
+        elif name == 'getters':
+            for a in ('n', 'fc', 'hbs', 'hms', 'area_type', 'sigma_shadow', 'use_shadow_bool',
+                      'handle_small_distances_bool', 'type'):
+                getattr(o, a, None)
+        elif name == 'helpers':
+            if hasattr(o, '_calculate_C_from_fc_and_n'):
+                o._calculate_C_from_fc_and_n(2400.0, 3.0)
+            if hasattr(o, '_calc_K'):
+                o._calc_K()
+                o._calc_mobile_antenna_height_correction_factor()
+            if hasattr(o, '_calc_PS7_path_loss_dB_same_floor'):
+                o._calc_PS7_path_loss_dB_same_floor(10.0, 2)
+                o._calc_PS7_path_loss_dB_LOS_same_floor(np.array([3.0, 7.0]))
+                o._calc_PS7_path_loss_dB_NLOS_same_floor(5.0, 1)
+                o._which_distance_dB_LOS_same_floor(70.0)
+                o._which_distance_dB_NLOS_same_floor(np.array([70.0]), 2)
+        elif name == 'det':
+            o._calc_deterministic_path_loss_dB(3.0)
+            o._calc_deterministic_path_loss_dB(np.array([[2.0, 1e-9]]))
+        elif name == 'copy':
+            return copy.copy(o)
+        elif name == 'deepcopy':
+            return copy.deepcopy(o)
+        elif name == 'pickle':
+            return pickle.loads(pickle.dumps(o))
+        elif name == 'vars':
+            dict(vars(o))
+            dir(o)
+        else:
+            raise ValueError(name)
+    return o
+
+
 def run_impl(case):
     """execute the ops of a case on the real code; one result per op:
     'ok' | 'error:<Name>' | float | [floats] | 'None' | 'shape:<got>!=<expected>'"""
@@ -338,6 +468,17 @@ def run_impl(case):
         try:
             if name in ('small', 'area'):
                 r = apply_setter(o, name, op[1])
+            elif name == 'shadow':
+                o.use_shadow_bool = bool(op[1])
+                r = 'ok'
+            elif name == 'flags':
+                r = flags_of(o)
+            elif name == 'nop':
+                o = do_nop(o, op[1], kind)
+                r = 'ok'
+            elif name in ('plot', 'plotx'):
+                do_plot(o, make_array(op[1], fmt), len(res), raises=(name == 'plotx'))
+                r = 'ok'
             elif name in ('n', 'fc', 'hbs', 'hms'):
                 r = apply_setter(o, name, make_scalar(op[1], fmt))
             elif kind == 'ps7' and name == 'db':
@@ -501,6 +642,37 @@ def safe_scalar(o, d, nw=None):
     return abs(float(v)) > 1e-6
 
 
+def nonmut_block(ctx, rng, kind, lo, hi, prefix='corr:'):
+    """ops: put the two policy flags into a chosen combination (mostly DIFFERENT from each other and from
+    the defaults), make 1-4 public calls that are not setters with `flags` observations in between, then switch
+    shadowing off again (numeric queries are only comparable without the random shadowing)"""
+    small, shadow = rng.choice([(1, 0), (1, 0), (0, 1), (0, 1), (1, 1), (0, 0)])
+    ops = [['small', small], ['shadow', shadow], ['flags']]
+    ctx.branch(prefix + 'R7:flags=s%dh%d' % (small, shadow))
+    for _ in range(rng.randint(1, 4)):
+        r = rng.below(10)
+        if r < 5:
+            ds = [gen_dist(rng, lo, hi) for _ in range(rng.randint(1, 4))]
+            if rng.chance(0.4):
+                ds[rng.below(len(ds))] = 1e-30           # far below every model's 0 dB distance
+                ctx.branch(prefix + 'R7:plot-too-small')
+            fmt = None
+            if rng.chance(0.3):
+                fmt = {'dtype': 'float64', 'layout': rng.choice(['list', 'tuple'])}
+            ops.append(['plot', ds] + ([fmt] if fmt else []))
+            ctx.branch(prefix + 'R7:plot')
+        elif r < 6:
+            ops.append(['plotx', [gen_dist(rng, lo, hi) for _ in range(rng.randint(1, 3))]])
+            ctx.branch(prefix + 'R7:plot-axes-raise')
+        else:
+            name = rng.choice(NOPS)
+            ops.append(['nop', name])
+            ctx.branch(prefix + 'R7:nop:' + ('copy' if name in ('copy', 'deepcopy', 'pickle') else 'call'))
+        ops.append(['flags'])
+    ops += [['shadow', 0], ['flags']]
+    return ops, small
+
+
 def fs_setter(rng, typed=False):
     r = rng.below(3)
     if r == 0:
@@ -548,6 +720,7 @@ def gen_case_general(ctx, rng, kind, hist_len):
     else:
         ctor = None
     case = {'kind': kind, 'ctor': ctor, 'ops': []}
+    _CURRENT.append(case)
     o, _ = build(case)
     n_ops = rng.randint(2, hist_len)
     for _ in range(n_ops):
@@ -601,8 +774,10 @@ def gen_case_general(ctx, rng, kind, hist_len):
                 vals = [nice(rng, logu(rng, -18.0, 0.0)) for _ in range(rng.randint(1, 4))]
                 op[1] = vals[0] if op[0] == 'wl' else vals
         else:
-            op = ['small', rng.below(2)]
-            apply_setter(o, op[0], op[1])
+            blk, sm = nonmut_block(ctx, rng, kind, -3.0, 3.0)
+            apply_setter(o, 'small', sm)
+            case['ops'] += blk
+            continue
         case['ops'].append(op)
     return case
 
@@ -610,9 +785,15 @@ def gen_case_general(ctx, rng, kind, hist_len):
 def gen_case_ps7(ctx, rng, hist_len):
     ctor = None if rng.chance(0.3) else [nice(rng, logu(rng, 2.0, 5.0))]
     case = {'kind': 'ps7', 'ctor': ctor, 'ops': []}
+    _CURRENT.append(case)
     o, _ = build(case)
     for _ in range(rng.randint(2, hist_len)):
         r = rng.below(10)
+        if r == 2 and rng.chance(0.7):
+            blk, sm = nonmut_block(ctx, rng, 'ps7', -1.0, 5.0)
+            apply_setter(o, 'small', sm)
+            case['ops'] += blk
+            continue
         if r < 3:
             op = ['fc', nice(rng, logu(rng, 2.0, 5.0))] if rng.chance(0.6) else ['small', rng.below(2)]
             apply_setter(o, op[0], op[1])
@@ -674,6 +855,7 @@ def gen_case_ps7(ctx, rng, hist_len):
 
 def gen_case_oh(ctx, rng, hist_len):
     case = {'kind': 'oh', 'ctor': None, 'ops': []}
+    _CURRENT.append(case)
     o, _ = build(case)
     first = True
     for _ in range(rng.randint(2, hist_len)):
@@ -709,6 +891,11 @@ def gen_case_oh(ctx, rng, hist_len):
                 if not all(safe_scalar(o, d) for d in ds):
                     continue
                 op = ['dba', ds]
+        elif rng.chance(0.5):
+            blk, sm = nonmut_block(ctx, rng, 'oh', -3.0, 3.0)
+            apply_setter(o, 'small', sm)
+            case['ops'] += blk
+            continue
         else:
             op = ['wdb', nice(rng, rng.uniform(50.0, 200.0))]
         case['ops'].append(op)
@@ -752,6 +939,22 @@ def policy_branches(ctx, case, impl):
             ctx.branch('ant:gain')
 
 
+_CURRENT = []     # the history being generated (for reporting an exception the LIBRARY raises meanwhile)
+
+
+def library_exception(ctx, kind, e, case):
+    """an exception raised by the library while a history / oracle case over covered inputs is being prepared is a
+    failing input (exit 1 with a replay), never a harness error"""
+    import traceback
+    tb = traceback.extract_tb(e.__traceback__)
+    where = ['%s:%d %s' % (f.filename.split('/')[-1], f.lineno, f.name) for f in tb[-3:]]
+    if not any('pyphysim' in f.filename for f in tb):
+        raise e                           # a bug of the harness itself: keep it visible (exit 2)
+    ctx.fail('history.exception', 'exception:%s:%s' % (kind, type(e).__name__), case,
+             '%r at %s' % (e, ' <- '.join(reversed(where))))
+    ctx.branch('oracle-fail:history.exception')
+
+
 def correspondence(ctx, n_cases, hist_len, depth):
     drv = core.Driver(DRIVER)
     rng = ctx.rng.fork('corr')
@@ -759,14 +962,21 @@ def correspondence(ctx, n_cases, hist_len, depth):
     kinds = ['fs', 'fs', 'fs', 'gen', 'gpp', 'ps7', 'ps7', 'oh', 'oh', 'oh', 'ant']
     for i in range(n_cases):
         kind = kinds[i % len(kinds)]
-        if kind in ('fs', 'gen', 'gpp'):
-            c = gen_case_general(ctx, rng, kind, hist_len)
-        elif kind == 'ps7':
-            c = gen_case_ps7(ctx, rng, hist_len)
-        elif kind == 'oh':
-            c = gen_case_oh(ctx, rng, hist_len)
-        else:
-            c = gen_case_ant(ctx, rng)
+        del _CURRENT[:]
+        try:
+            if kind in ('fs', 'gen', 'gpp'):
+                c = gen_case_general(ctx, rng, kind, hist_len)
+            elif kind == 'ps7':
+                c = gen_case_ps7(ctx, rng, hist_len)
+            elif kind == 'oh':
+                c = gen_case_oh(ctx, rng, hist_len)
+            else:
+                c = gen_case_ant(ctx, rng)
+        except core.Infra:
+            raise
+        except Exception as e:
+            library_exception(ctx, kind, e, dict(_CURRENT[-1]) if _CURRENT else {'kind': kind, 'ctor': None, 'ops': []})
+            continue
         if c['ops']:
             cases.append(c)
     enum = enumerated_cases(depth)
@@ -798,13 +1008,13 @@ def enumerated_cases(depth):
     out = []
     oh_ops = [['fc', 150.0], ['fc', 299.0], ['fc', 1500.0], ['fc', 149.0], ['hbs', 30.0], ['hbs', 200.0],
               ['hbs', 250.0], ['hms', 5.0], ['hms', 0.5], ['area', 'open'], ['area', 'large city'],
-              ['area', 'medium city'], ['area', 'bad'], ['small', 1]]
-    oh_q = [['db', 5.0], ['db', 1e-9], ['dba', [0.5, 30.0]], ['lin', 2.0]]
-    fs_ops = [['n', 2.0], ['n', 3.5], ['n', 0.7], ['fc', 900.0], ['fc', 2400.0], ['fc', 5.0], ['small', 0],
-              ['small', 1]]
-    fs_q = [['db', 1.2], ['db', 1e-5], ['lin', 3.0], ['wdb', 100.0], ['dba', [1e-5, 0.02, 40.0]], ['wl', 1e-9]]
-    ps_ops = [['fc', 900.0], ['fc', 6000.0], ['fc', 150.0], ['small', 0], ['small', 1]]
-    ps_q = [['db', 0, 10.0], ['db', 3, 10.0], ['db', 1, 1e-4], ['dba', 2, [1e-4, 5.0]], ['wdb', 0, 70.0],
+              ['area', 'medium city'], ['area', 'bad'], ['small', 1], ['shadow', 1], ['plot', [1e-30, 5.0]]]
+    oh_q = [['flags'], ['plot', [2.0]], ['flags'], ['shadow', 0], ['db', 5.0], ['db', 1e-9], ['dba', [0.5, 30.0]], ['lin', 2.0]]
+    fs_ops = [['n', 2.0], ['n', 3.5], ['fc', 900.0], ['fc', 2400.0], ['small', 0], ['small', 1], ['shadow', 1],
+              ['shadow', 0], ['plot', [1e-30, 1.0]], ['nop', 'deepcopy']]
+    fs_q = [['flags'], ['plot', [1.0, 2.0]], ['flags'], ['shadow', 0], ['db', 1.2], ['db', 1e-5], ['lin', 3.0], ['wdb', 100.0], ['dba', [1e-5, 0.02, 40.0]], ['wl', 1e-9]]
+    ps_ops = [['fc', 900.0], ['fc', 6000.0], ['small', 0], ['small', 1], ['shadow', 1], ['plot', [1e-30, 10.0]]]
+    ps_q = [['flags'], ['plotx', [3.0]], ['flags'], ['shadow', 0], ['db', 0, 10.0], ['db', 3, 10.0], ['db', 1, 1e-4], ['dba', 2, [1e-4, 5.0]], ['wdb', 0, 70.0],
             ['wdb', 2, 70.0], ['lin', 1, 30.0]]
     for kind, ops, q, dmax in (('oh', oh_ops, oh_q, depth), ('fs', fs_ops, fs_q, depth + 1),
                                ('ps7', ps_ops, ps_q, depth + 1)):
@@ -851,6 +1061,14 @@ def corpus_cases():
                                               ['ga', [48.4, 48.5, -48.5, 100.0]]]},
         {'kind': 'ant', 'ctor': [9], 'ops': [['g', 0.0]]},
     ]
+    # flags that differ from each other and from the defaults, a plot call, then the policy must still be in force
+    for kind, d_ok, q in (('fs', 1.0, ['db', 1e-9]), ('gpp', 1.0, ['db', 1e-9]), ('gen', 1.0, ['db', 1e-30]),
+                          ('ps7', 10.0, ['db', 0, 1e-9]), ('oh', 5.0, ['db', 1e-9])):
+        ops = [['small', 1], ['shadow', 0], ['flags'], ['plot', [d_ok, 2 * d_ok]], ['flags'], q,
+               ['plot', [1e-30, d_ok]], ['flags'], ['small', 0], ['shadow', 1], ['plot', [d_ok]], ['flags'],
+               ['plot', [1e-30]], ['flags'], ['plotx', [d_ok]], ['flags'], ['nop', 'deepcopy'], ['flags'],
+               ['nop', 'latex'], ['nop', 'pickle'], ['flags'], ['shadow', 0], q, ['small', 1], q]
+        c.append({'kind': kind, 'ctor': [2.0, 40.0] if kind == 'gen' else None, 'ops': ops})
     return c
 
 
@@ -1087,13 +1305,6 @@ def o_antenna(case):
 
 
 # ------------------------------------------------------------------ robustness classes R1-R7 (oracles on the REAL code)
-class _Ax:
-    """stand-in for a matplotlib axes (plot_deterministic_path_loss_in_dB only calls ax.plot)"""
-
-    def plot(self, *a, **k):
-        return None
-
-
 def fmt_class(fmt):
     """failure-class prefix computed from the input format"""
     if not fmt:
@@ -1476,6 +1687,170 @@ def o_shared(case):
     return o_history(case)
 
 
+def config_of(o):
+    """every configuration attribute of the object (instance dict, by repr)"""
+    return dict((k, repr(v)) for k, v in vars(o).items())
+
+
+NONMUT_CALLS = ['plot-stub', 'plot-extra-args', 'plot-impl', 'plot-agg', 'plot-standalone', 'plot-too-small',
+                'plot-axes-raise', 'plot-list', 'plot-2d', 'plot-empty', 'db', 'dba', 'lin', 'lina', 'wdb', 'wl',
+                'det'] + ['nop-' + n for n in NOPS]
+
+
+def do_nonmut(o, call, kind, d, nw):
+    """perform one public non-setter call; returns the object to go on with (copies replace it)"""
+    arr = np.array(d, dtype=float)
+    if call == 'plot-stub':
+        do_plot(o, arr, 0)
+    elif call == 'plot-extra-args':
+        do_plot(o, arr, 1)
+    elif call == 'plot-impl':
+        do_plot(o, arr, 2)
+    elif call == 'plot-agg':
+        do_plot(o, arr, 3)
+    elif call == 'plot-standalone':
+        do_plot(o, arr, 4)
+    elif call == 'plot-too-small':
+        do_plot(o, np.array([1e-30] + list(d), dtype=float), 0)
+    elif call == 'plot-axes-raise':
+        do_plot(o, arr, 0, raises=True)
+    elif call == 'plot-list':
+        do_plot(o, [float(x) for x in d], 0)
+    elif call == 'plot-2d':
+        do_plot(o, np.array([list(d), list(d)], dtype=float), 0)
+    elif call == 'plot-empty':
+        do_plot(o, np.zeros((0,)), 0)
+    elif call in ('db', 'lin'):
+        query_call(o, call, float(d[0]), nw)
+        query_call(o, call, 1e-30, nw)
+    elif call in ('dba', 'lina'):
+        query_call(o, call[:-1], np.array(list(d) + [1e-30], dtype=float), nw)
+    elif call == 'wdb':
+        query_call(o, 'wdb', 77.0, nw)
+        query_call(o, 'wdb', np.array([60.0, 90.0]), nw)
+    elif call == 'wl':
+        query_call(o, 'wl', 1e-8, nw)
+    elif call == 'det':
+        do_nop(o, 'det', kind)
+    elif call.startswith('nop-'):
+        return do_nop(o, call[4:], kind)
+    else:
+        raise ValueError(call)
+    return o
+
+
+ALLOWED_RAISES = (RuntimeError, NotImplementedError)     # too-small distance with the flag off / query not offered
+
+
+def o_nonmutating(case):
+    """R7: a public call that is not a setter leaves EVERY configuration attribute unchanged, whatever the two
+    policy flags are; afterwards the object answers like one that never saw the calls"""
+    kind = case['kind']
+    nw = case.get('nw')
+    o, _ = build(case)
+    t, _ = build(case)
+    fl = case['flags']
+    for x in (o, t):
+        x.handle_small_distances_bool = bool(fl['small'])
+        x.use_shadow_bool = bool(fl['shadow'])
+        x.sigma_shadow = fl['sigma']
+    np.random.seed(case.get('npseed', 0))
+    before = config_of(o)
+    d = _dists(case)
+    for call in case['calls']:
+        try:
+            o2 = do_nonmut(o, call, kind, d, nw)
+        except ALLOWED_RAISES:
+            o2 = o
+        except ValueError as e:
+            if call != 'plot-axes-raise':
+                return 'R7:%s:%s:exception' % (kind, call), repr(e)[:200]
+            o2 = o
+        now = config_of(o)
+        if now != before:
+            diff = dict((k, (before.get(k), now.get(k))) for k in set(before) | set(now) if before.get(k) != now.get(k))
+            return 'R7:%s:%s:config-changed' % (kind, call), 'flags small=%s shadow=%s: %r' % (fl['small'], fl['shadow'], diff)
+        if o2 is not o:
+            if config_of(o2) != before:
+                return 'R7:%s:%s:copy-differs' % (kind, call), '%r vs %r' % (config_of(o2), before)
+            o2.handle_small_distances_bool = not o2.handle_small_distances_bool      # the copy is independent
+            if kind == 'fs':
+                o2.n = 4.25
+            if config_of(o) != before:
+                return 'R7:%s:%s:copy-shares-state' % (kind, call), 'changing the copy changed the original'
+            o2.handle_small_distances_bool = bool(fl['small'])
+            if kind == 'fs':
+                o2.n = o.n
+            o = o2
+    o.use_shadow_bool = t.use_shadow_bool = False
+    if observe(o, d, nw) != observe(t, d, nw):
+        return 'R7:%s:%s:diverges' % (kind, '+'.join(sorted(set(c.split('-')[0] for c in case['calls'])))), \
+            'after %r the answers differ from an object that never saw the calls' % (case['calls'],)
+    return None
+
+
+def o_flagtypes(case):
+    """R1 for the two policy flags: a truthy / falsy flag of another type (1, numpy bool from a comparison)
+    means the same as the Python bool"""
+    kind = case['kind']
+    nw = case.get('nw')
+    outs = {}
+    for name, val in (('True', True), ('1', 1), ('np.True_', np.bool_(True)), ('cmp', np.array([2.0])[0] > 1.0),
+                      ('False', False), ('0', 0), ('np.False_', np.bool_(False))):
+        o, _ = build(case)
+        o.handle_small_distances_bool = val
+        r = [scalar_ref(o, 'db', 1e-30, nw)]
+        try:
+            r.append(tuple(float(x) for x in np.asarray(query_call(o, 'db', np.array([1e-30, _dists(case)[0]]), nw))))
+        except Exception as e:
+            r.append(errname(e))
+        outs[name] = r
+    for name in ('1', 'np.True_', 'cmp'):
+        if outs[name] != outs['True']:
+            return 'R1:flag:%s:%s' % (kind, name), 'handle_small_distances_bool = %s gives %r, True gives %r' % (
+                name, outs[name], outs['True'])
+    for name in ('0', 'np.False_'):
+        if outs[name] != outs['False']:
+            return 'R1:flag:%s:%s' % (kind, name), 'handle_small_distances_bool = %s gives %r, False gives %r' % (
+                name, outs[name], outs['False'])
+    # use_shadow_bool: a truthy flag of another type must switch shadowing on as True does
+    d = _dists(case)[0]
+    o, _ = build(case)
+    o.handle_small_distances_bool = True
+    base = float(query_call(o, 'db', d, nw))
+    for name, val in (('True', True), ('1', 1), ('np.True_', np.bool_(True))):
+        o.use_shadow_bool = val
+        np.random.seed(12345)
+        got = [float(query_call(o, 'db', d, nw)) for _ in range(4)]
+        if base > 40.0 and all(g == base for g in got):
+            return 'R1:flag:%s:shadow=%s' % (kind, name), 'use_shadow_bool = %s: four queries all gave the deterministic %r' % (name, base)
+    return None
+
+
+def o_history_exception(case):
+    """replay of an exception the library raised while a history was being prepared: run the recorded ops, then
+    the preparation steps (deterministic loss of a distance grid, scalar / array, every wall count)"""
+    kind = case['kind']
+    o, _ = build({'kind': kind, 'ctor': case.get('ctor'), 'hist': case.get('hist', [])})
+    try:
+        for op in case.get('ops', []):
+            op, fmt = split_fmt(op)
+            if op[0] in ('small', 'area', 'n', 'fc', 'hbs', 'hms'):
+                apply_setter(o, op[0], make_scalar(op[1], fmt) if op[0] not in ('small', 'area') else op[1])
+            elif op[0] == 'shadow':
+                o.use_shadow_bool = bool(op[1])
+        if kind == 'ant':
+            o.get_antenna_gain(np.array([0.0, 30.0]))
+            return None
+        for nw in ((0, 1, 3) if kind == 'ps7' else (None,)):
+            for dd in (1e-9, 1e-3, 1.0, 30.0, 1e3):
+                det_db(o, dd, nw)
+            det_db(o, np.array([1e-9, 1.0, 1e3]), nw)
+    except Exception as e:
+        return 'exception:%s:%s' % (kind, type(e).__name__), repr(e)[:300]
+    return None
+
+
 ORACLES = {
     'calc_path_loss_dB.monotone': o_monotone,
     'calc_path_loss.linear': o_linear,
@@ -1489,6 +1864,9 @@ ORACLES = {
     'robust.boundary': o_boundary,
     'robust.scale': o_scale,
     'robust.shared': o_shared,
+    'robust.nonmutating': o_nonmutating,
+    'robust.flagtypes': o_flagtypes,
+    'history.exception': o_history_exception,
 }
 
 
@@ -1630,6 +2008,12 @@ def robust_oracles(ctx, n_cases, hist_len):
     for i in range(n_cases):
         kind = kinds[i % len(kinds)]
         base = oracle_case(rng, kind, min(hist_len, 8))
+        try:
+            build(base)
+            det_db(build(base)[0], 1.0, base.get('nw'))
+        except Exception as e:
+            library_exception(ctx, kind, e, {'kind': kind, 'ctor': base.get('ctor'), 'hist': base.get('hist', [])})
+            continue
         if kind == 'gen' and rng.chance(0.6):
             base['ctor'][1] = nice(rng, rng.uniform(-60.0, -5.0))     # integer distances can be "too small"
         o, _ = build(base)
@@ -1716,6 +2100,27 @@ def robust_oracles(ctx, n_cases, hist_len):
         ctx.branch('oracle:R7:shared')
         run_oracle(ctx, 'robust.shared', {'kind': kind, 'ctor': base['ctor'], 'hist': long_hist, 'nw': nw,
                                           'd': [gen_dist(rng, lo, hi) for _ in range(3)], 'pl': base['pl']})
+        # ---- R7: public calls that are not setters, flags differing from each other and from the defaults
+        for rep in range(2):
+            small, shadow = rng.choice([(1, 0), (1, 0), (0, 1), (0, 1), (1, 1), (0, 0)])
+            calls = [rng.choice(NONMUT_CALLS) for _ in range(rng.randint(1, 4))]
+            if kind == 'oh':
+                calls = [c for c in calls if c not in ('wdb', 'wl')] or ['plot-stub']
+            if rep == 0:
+                calls[0] = NONMUT_CALLS[(i // len(kinds)) % len(NONMUT_CALLS)]      # every entry point in turn
+                if kind == 'oh' and calls[0] in ('wdb', 'wl'):
+                    calls[0] = 'plot-stub'
+            for c in calls:
+                ctx.branch('oracle:R7:nonmut:' + (c if c.startswith('plot') else 'nop' if c.startswith('nop') else 'query'))
+            ctx.branch('oracle:R7:nonmut:flags=s%dh%d' % (small, shadow))
+            run_oracle(ctx, 'robust.nonmutating',
+                       {'kind': kind, 'ctor': base['ctor'], 'hist': base['hist'], 'nw': nw, 'calls': calls,
+                        'flags': {'small': small, 'shadow': shadow, 'sigma': nice(rng, rng.uniform(0.5, 12.0))},
+                        'd': [gen_dist(rng, lo, hi) for _ in range(3)], 'npseed': rng.below(1 << 30)})
+        if i < 5 * len(kinds):
+            ctx.branch('oracle:R1:flag-types')
+            run_oracle(ctx, 'robust.flagtypes', {'kind': kind, 'ctor': base['ctor'], 'hist': base['hist'], 'nw': nw,
+                                                 'd': [gen_dist(rng, 0.0 if kind != 'ps7' else 1.0, hi)]})
     # ---- antenna: typed / shaped angle arrays (int16 matters: 12*angle**2 overflows there), boundaries
     for i in range(max(12, n_cases // 4)):
         if rng.chance(0.25):
@@ -1750,7 +2155,12 @@ ROBUST_REQUIRED = (
                              'policy-raise', 'R4:policy-raise', 'R4:policy-raise-lin', 'R4:d-zero', 'R4:d-negative',
                              'R4:bad-type', 'R4:plot-raise', 'R4:setter', 'R4:which-not-offered', 'R4:neg-walls',
                              'R4:neg-walls-which', 'R5:boundary', 'R6:scale', 'R7:shared', 'ant:R1:int-array',
-                             'ant:R1:int16-wide-angles', 'ant:R1:narrow-float-array', 'ant:R2:2d')]
+                             'ant:R1:int16-wide-angles', 'ant:R1:narrow-float-array', 'ant:R2:2d',
+                             'R1:flag-types', 'R7:nonmut:flags=s1h0', 'R7:nonmut:flags=s0h1', 'R7:nonmut:flags=s1h1',
+                             'R7:nonmut:flags=s0h0', 'R7:nonmut:query', 'R7:nonmut:nop')]
+    + ['oracle:R7:nonmut:' + c for c in NONMUT_CALLS if c.startswith('plot')]
+    + ['corr:' + b for b in ('R7:flags=s1h0', 'R7:flags=s0h1', 'R7:flags=s1h1', 'R7:flags=s0h0', 'R7:plot',
+                             'R7:plot-too-small', 'R7:plot-axes-raise', 'R7:nop:copy', 'R7:nop:call')]
     + ['corr:' + b for b in ('R1:int-scalar', 'R1:npint-scalar', 'R1:int-array', 'R1:uint8-array',
                              'R1:narrow-float-array', 'R1:list-or-tuple', 'R2:0d', 'R2:size0', 'R2:Nx1', 'R2:1xN',
                              'R2:2d', 'R2:3d', 'R2:fortran', 'R2:transposed', 'R2:reversed', 'R2:strided',
